@@ -16,11 +16,13 @@ TRUSTED = ['harness channels / server set standing for the next sinks and the pr
            'EMA values are taken from the real Ema.Update as exact rationals']
 ASSUMPTIONS = ['server-set callbacks are truthful: each join/leave reports a change the server set has made; '
                'GetServers returns the server set as it was at some moment after Open()',
-               'Close() followed by a second Open() of the same balancer is outside the property',
+               'Open() may be called again any number of times after the first call (the balancer is opening or open: '
+               'same open result, nothing re-run); Close() followed by a new open sequence of the same balancer is '
+               'outside the property',
                'channel states change only between balancer calls (gevent is cooperative)']
 RULE = ('scripts from the seeded generator (both balancer classes, slow initial load with callbacks and requests '
         'arriving meanwhile, duplicate joins, unknown leaves, re-joins, traffic, channel faults, slow/failed opens, '
-        'jitter) plus every join/leave word up to the exhaustive length over 3 endpoints; distinct = distinct '
+        'jitter; in a quarter of them Open() is called again one to three times anywhere after the first call) plus every join/leave word up to the exhaustive length over 3 endpoints; distinct = distinct '
         '(cfg, op list); non-trivial = reaches gating, a duplicate/unknown notification, a removal, an expansion '
         'or contraction, a failed open or a queued request')
 
